@@ -2,7 +2,7 @@
 (* Byte strings of up to MaxTok groups from an alphabet of heads at every width, strings (definite, chunked, multi-byte    *)
 (* and invalid UTF-8), floats and simple values, then every prefix; every accessor's expected outcome is emitted.          *)
 EXTENDS C04, TLC, Json
-CONSTANTS MaxTok, Rich
+CONSTANTS MaxTok, Rich, HalfOn          \* HalfOn: the cases are meant for a build with (TRUE) / without (FALSE) the `half` feature
 VARIABLES ph, buf, ntok, cut
 vars == <<ph, buf, ntok, cut>>
 Core == { <<1>>, <<24, 200>>, <<25, 1, 0>>, <<26, 0, 1, 0, 0>>, <<27, 0, 0, 0, 1, 0, 0, 0, 0>>, <<32>>, <<56, 127>>, <<56, 128>>, <<57, 128, 0>>,
@@ -20,9 +20,9 @@ B == SubSeq(buf, 1, cut)
 ProbeSample == {"u8", "int", "str", "bytes_iter", "array", "map_iter", "tag", "datatype", "f32"}
 Emit == (ph' = "cut") =>
    LET b == SubSeq(buf, 1, cut') IN
-   \A name \in AccNames :
-      /\ PrintT(<<"CASE", ToJson([fam |-> "acc", name |-> name, in |-> [buf |-> b, pos |-> 0], exp |-> AccExpect(name, TRUE, b, 0)])>>)
-      /\ (name \in ProbeSample => PrintT(<<"CASE", ToJson([fam |-> "probe", name |-> name, in |-> [buf |-> b, pos |-> 0], exp |-> ProbeExpect(name, TRUE, b, 0)])>>))
+   \A name \in (IF HalfOn THEN AccNames ELSE AccNames \ {"f16"}) :
+      /\ PrintT(<<"CASE", ToJson([fam |-> "acc", name |-> name, in |-> [buf |-> b, pos |-> 0], exp |-> AccExpect(name, HalfOn, b, 0)])>>)
+      /\ (name \in ProbeSample => PrintT(<<"CASE", ToJson([fam |-> "probe", name |-> name, in |-> [buf |-> b, pos |-> 0], exp |-> ProbeExpect(name, HalfOn, b, 0)])>>))
 \* ---- invariants ----
 WF == ph = "cut" /\ ItemEnd(B, 0) >= 0
 TreeAgreement == WF => \A name \in WholeAcc : AgreesWithTree(name, B)
